@@ -83,13 +83,22 @@
 (*                   file (FALSE: open() first and only FileNotFoundError  *)
 (*                   handled: a name with NUL / a lone surrogate raises    *)
 (*                   ValueError / UnicodeEncodeError)                      *)
+(*   EmbLexerClone   compile_embedded_value tokenizes the nested text with *)
+(*                   a CLONE of the compiler's base lexer (FALSE: with the *)
+(*                   base lexer itself; lexer.input() does not reset the   *)
+(*                   line counter, so the line ends of every nested text   *)
+(*                   stay in the base lexer, and every text compiled       *)
+(*                   afterwards - include file, later call, later nested   *)
+(*                   text - starts counting lines from there: its errors   *)
+(*                   report a line beyond the end of the text)             *)
 (***************************************************************************)
 EXTENDS MofCompile
 
 CONSTANTS IncludeGuard, NsNoneCheck, HexBounds, CtxBounds, ValueWrapped,
           RepoWrapped, EmbFinally, RestoreOnReturn, EmbRestoreAll,
           SuperCheckFirst, AncestryWalk, GuardCanonical, RegisterAfterCreate, NsCachesInit,
-          EmbNullChecked, OverflowWrapped, InstOffsetAll, OpenPrecheck
+          EmbNullChecked, OverflowWrapped, InstOffsetAll, OpenPrecheck,
+          EmbLexerClone
 
 AnyMof == {"ok"} \cup MOFErrors
 
